@@ -431,7 +431,10 @@ def oracle_line(ctx: Ctx, a, kc, ws, line, reader_result):
     if mpr is None:  # cannot happen: minimise keeps a failing case
         mpr, ma, mkc, mws = pr, a, kc, ws
     essential = sorted({fieldname(k) for k in FIELDS if ma[k] != BASE[k]})
-    sig = {"layout": mpr[0], "field": mpr[1], "kind": mpr[2], "needs": ",".join(essential), "keep_chain": mkc}
+    # "domain": whether the minimised atom satisfies the hypothesis of the round-trip theorem (Fits / FitsWs).
+    # Every recorded format limit lies outside it; a failure inside it contradicts theorem + tie and is never masked.
+    inside = fits_ws(ma, mkc) if mws else fits(ma, mkc)
+    sig = {"layout": mpr[0], "field": mpr[1], "kind": mpr[2], "needs": ",".join(essential), "keep_chain": mkc, "domain": "inside-Fits" if inside else "outside-Fits"}
     ctx.violate(sig, mpr[3], {"atom": ma, "keep_chain": mkc, "whitespace": mws, "original": {"atom": a, "keep_chain": kc, "whitespace": ws}})
     return False
 
